@@ -2992,5 +2992,219 @@ theorem gained_tells_loser (fx : Fixes) : ∀ (fuel : Nat) (t : Tree) (x : Nat) 
                 fun ha => hnb (Anc.step hw hpar (anc_lk (sameLK_symm s12) ha))⟩
       · exact in2 hmem
 
+
+/-! ### "parents that asked are told": the IN half -/
+
+/-- The notification switch of a window (no operation of the focus transfer writes it). -/
+def nf (w : Win) : Bool := w.focusChildNotify
+
+/-- Same notification switches. -/
+def SameNF (t t' : Tree) : Prop := t'.root = t.root ∧ ∀ i : Nat, (t'.wins[i]?).map nf = (t.wins[i]?).map nf
+
+theorem sameNF_refl (t : Tree) : SameNF t t := ⟨rfl, fun _ => rfl⟩
+theorem sameNF_trans {a b c : Tree} (h1 : SameNF a b) (h2 : SameNF b c) : SameNF a c :=
+  ⟨h2.1.trans h1.1, fun i => (h2.2 i).trans (h1.2 i)⟩
+
+theorem sameNF_set {t : Tree} {i : Nat} {w w' : Win} (hw : t.wins[i]? = some w) (hs : nf w' = nf w) :
+    SameNF t (WinTree.set t i w') := by
+  refine ⟨rfl, fun j => ?_⟩
+  simp only [WinTree.set, Array.getElem?_setIfInBounds]
+  by_cases hij : i = j
+  · subst hij
+    have hi : i < t.wins.size := (Array.getElem?_eq_some_iff.mp hw).1
+    rw [hw]; simp [hi, hs]
+  · simp [hij]
+
+theorem focusLostSelf_nf {t : Tree} {win : Nat} {evs : List Event} {r : Tree × List Event}
+    (h : focusLostSelf t win evs = .ok r) : SameNF t r.1 := by
+  simp only [focusLostSelf, bind_ok] at h
+  obtain ⟨w, hg, h⟩ := h
+  split at h
+  · simp only [pure_ok] at h; subst h; exact sameNF_set (get_ok.mp hg).1 rfl
+  · simp only [pure_ok] at h; subst h; exact sameNF_refl _
+
+theorem focusLost_nf : ∀ (fuel : Nat) (t : Tree) (win : Nat) (r : Tree × List Event),
+    focusLost fuel t win = .ok r → SameNF t r.1 := by
+  intro fuel
+  induction fuel with
+  | zero => intro t win r h; simp [focusLost] at h
+  | succ n ih =>
+    intro t win r h
+    simp only [focusLost, bind_ok] at h
+    obtain ⟨r1, h1, h2⟩ := h
+    have hs1 : SameNF t r1.1 := by
+      simp only [focusLostChild, bind_ok] at h1
+      obtain ⟨w, _, h1⟩ := h1
+      split at h1
+      · simp only [pure_ok] at h1; subst h1; exact sameNF_refl _
+      · simp only [bind_ok, pure_ok] at h1
+        obtain ⟨r0, h0, w', _, h1⟩ := h1
+        subst h1
+        exact ih _ _ r0 h0
+    exact sameNF_trans hs1 (focusLostSelf_nf h2)
+
+theorem gainLoseOld_nf {fx : Fixes} {t : Tree} {win : Nat} {child : Option Nat} {r : Tree × List Event}
+    (h : gainLoseOld fx t win child = .ok r) : SameNF t r.1 := by
+  simp only [gainLoseOld, bind_ok] at h
+  obtain ⟨w, _, h⟩ := h
+  split at h
+  · simp only [pure_ok] at h; subst h; exact sameNF_refl _
+  · split at h
+    · simp only [bind_ok, pure_ok] at h
+      obtain ⟨r0, h0, w', _, h⟩ := h
+      subst h
+      exact focusLost_nf _ _ _ r0 h0
+    · simp only [pure_ok] at h; subst h; exact sameNF_refl _
+
+theorem gainSelfOut_nf {fx : Fixes} {t : Tree} {win : Nat} {child : Option Nat} {evs : List Event}
+    {r : Tree × List Event} (h : gainSelfOut fx t win child evs = .ok r) : SameNF t r.1 := by
+  simp only [gainSelfOut, bind_ok] at h
+  obtain ⟨w, hg, h⟩ := h
+  split at h
+  · simp only [pure_ok] at h; subst h; exact sameNF_set (get_ok.mp hg).1 rfl
+  · simp only [pure_ok] at h; subst h; exact sameNF_refl _
+
+theorem gainSelfIn_nf {t : Tree} {win : Nat} {child : Option Nat} {evs : List Event}
+    {r : Tree × List Event} (h : gainSelfIn t win child evs = .ok r) : SameNF t r.1 := by
+  simp only [gainSelfIn, bind_ok] at h
+  obtain ⟨w, hg, h⟩ := h
+  split at h
+  · simp only [pure_ok] at h; subst h; exact sameNF_set (get_ok.mp hg).1 rfl
+  · simp only [pure_ok] at h; subst h; exact sameNF_set (get_ok.mp hg).1 rfl
+
+
+theorem focusGained_nfw (fx : Fixes) : ∀ (fuel : Nat) (t : Tree) (win : Nat) (child : Option Nat)
+    (r : Tree × List Event), focusGained fx fuel t win child = .ok r →
+    ∀ i : Nat, (r.1.wins[i]?).map nf = (t.wins[i]?).map nf := by
+  intro fuel
+  induction fuel with
+  | zero => intro t win child r h; simp [focusGained] at h
+  | succ n ih =>
+    intro t win child r h i
+    simp only [focusGained, bind_ok] at h
+    obtain ⟨r1, h1, r2, h2, r3, h3, h4⟩ := h
+    have hs2 : SameNF t r2.1 := sameNF_trans (gainLoseOld_nf h1) (gainSelfOut_nf h2)
+    have hs3 : (r3.1.wins[i]?).map nf = (r2.1.wins[i]?).map nf := by
+      simp only [gainClimb, bind_ok] at h3
+      obtain ⟨w, _, h3⟩ := h3
+      split at h3
+      · split at h3
+        · exact ih _ _ _ _ h3 i
+        · simp only [pure_ok] at h3; subst h3; rfl
+      · simp only [bind_ok, pure_ok] at h3
+        obtain ⟨t', ht', h3⟩ := h3
+        subst h3
+        unfold requestRestoreOf at ht'
+        simp only [bind_ok, pure_ok] at ht'
+        obtain ⟨_, _, ht'⟩ := ht'
+        subst ht'; rfl
+    rw [(gainSelfIn_nf h4).2 i, hs3, hs2.2 i]
+
+/-- `Reaches t x p c`: the climb of `_focus_gained` from `x` (through visible windows) arrives at `p`, coming from
+    its child `c`. -/
+inductive Reaches (t : Tree) : Nat → Nat → Nat → Prop where
+  | here {x p : Nat} {w : Win} : t.wins[x]? = some w → w.freed = false → w.parent = some p → w.isVisible = true →
+      Reaches t x p x
+  | up {x y p c : Nat} {w : Win} : t.wins[x]? = some w → w.freed = false → w.parent = some y → w.isVisible = true →
+      Reaches t y p c → Reaches t x p c
+
+theorem reaches_pv {t t' : Tree} (h : ∀ i : Nat, (t'.wins[i]?).map pv = (t.wins[i]?).map pv) {x p c : Nat}
+    (hr : Reaches t x p c) : Reaches t' x p c := by
+  induction hr with
+  | @here x p w hw hf hpar hv =>
+    have := h x
+    rw [hw] at this
+    cases hw' : t'.wins[x]? with
+    | none => rw [hw'] at this; simp at this
+    | some w' =>
+      rw [hw'] at this; simp [pv] at this
+      exact .here hw' (this.2.2.trans hf) (this.1.trans hpar) (this.2.1.trans hv)
+  | @up x y p c w hw hf hpar hv _ ih =>
+    have := h x
+    rw [hw] at this
+    cases hw' : t'.wins[x]? with
+    | none => rw [hw'] at this; simp at this
+    | some w' =>
+      rw [hw'] at this; simp [pv] at this
+      exact .up hw' (this.2.2.trans hf) (this.1.trans hpar) (this.2.1.trans hv) ih
+
+/-- A level of `_focus_gained` entered from a child tells the window IN for that child when it asked. -/
+theorem gained_level_in (fx : Fixes) {fuel : Nat} {t : Tree} {p c : Nat} {r : Tree × List Event} {pw : Win}
+    (h : focusGained fx fuel t p (some c) = .ok r) (hpw : t.wins[p]? = some pw) (hn : pw.focusChildNotify = true) :
+    (⟨p, .focusIn, c⟩ : Event) ∈ r.2 := by
+  cases fuel with
+  | zero => simp [focusGained] at h
+  | succ n =>
+    simp only [focusGained, bind_ok] at h
+    obtain ⟨r1, h1, r2, h2, r3, h3, h4⟩ := h
+    have hs2 : SameNF t r2.1 := sameNF_trans (gainLoseOld_nf h1) (gainSelfOut_nf h2)
+    have hs3 : (r3.1.wins[p]?).map nf = (r2.1.wins[p]?).map nf := by
+      simp only [gainClimb, bind_ok] at h3
+      obtain ⟨w, _, h3⟩ := h3
+      split at h3
+      · split at h3
+        · exact focusGained_nfw fx _ _ _ _ _ h3 p
+        · simp only [pure_ok] at h3; subst h3; rfl
+      · simp only [bind_ok, pure_ok] at h3
+        obtain ⟨t', ht', h3⟩ := h3
+        subst h3
+        unfold requestRestoreOf at ht'
+        simp only [bind_ok, pure_ok] at ht'
+        obtain ⟨_, _, ht'⟩ := ht'
+        subst ht'; rfl
+    simp only [gainSelfIn, bind_ok, pure_ok] at h4
+    obtain ⟨w, hg, h4⟩ := h4
+    have hw := (get_ok.mp hg).1
+    have hnw : w.focusChildNotify = true := by
+      have := hs3.trans (hs2.2 p)
+      rw [hw, hpw] at this
+      simp [nf] at this
+      rw [this]; exact hn
+    subst h4
+    simp [hnw]
+
+/-- Every window on the visible path above the window taking the focus that asked for child notifications is told
+    IN for its child on the path. -/
+theorem gained_parents_in (fx : Fixes) : ∀ (fuel : Nat) (t : Tree) (x : Nat) (child : Option Nat)
+    (r : Tree × List Event) (p c : Nat) (pw : Win), focusGained fx fuel t x child = .ok r → Reaches t x p c →
+    t.wins[p]? = some pw → pw.focusChildNotify = true → (⟨p, .focusIn, c⟩ : Event) ∈ r.2 := by
+  intro fuel
+  induction fuel with
+  | zero => intro t x child r p c pw h; simp [focusGained] at h
+  | succ n ih =>
+    intro t x child r p c pw h hre hpw hn
+    have hall := h
+    simp only [focusGained, bind_ok] at h
+    obtain ⟨r1, h1, r2, h2, r3, h3, h4⟩ := h
+    obtain ⟨x4, hx4, _, _⟩ := gainSelfIn_events h4
+    have in3 : (⟨p, .focusIn, c⟩ : Event) ∈ r3.2 → (⟨p, .focusIn, c⟩ : Event) ∈ r.2 := by
+      intro hm; rw [hx4]
+      exact List.mem_append.mpr (.inl (List.mem_append.mpr (.inr hm)))
+    have hs2 : SamePV t r2.1 := samePV_trans (gainLoseOld_pv h1) (gainSelfOut_pv h2)
+    have hn2 : SameNF t r2.1 := sameNF_trans (gainLoseOld_nf h1) (gainSelfOut_nf h2)
+    have hpw2 : ∃ pw2, r2.1.wins[p]? = some pw2 ∧ pw2.focusChildNotify = true := by
+      have := hn2.2 p
+      rw [hpw] at this
+      cases h' : r2.1.wins[p]? with
+      | none => rw [h'] at this; simp at this
+      | some pw2 => rw [h'] at this; simp [nf] at this; exact ⟨pw2, rfl, this.trans hn⟩
+    obtain ⟨pw2, hpw2, hn2'⟩ := hpw2
+    -- the recursive call this level makes
+    have hrec : ∀ y (w : Win), t.wins[x]? = some w → w.freed = false → w.parent = some y → w.isVisible = true →
+        focusGained fx n r2.1 y (some x) = .ok r3 := by
+      intro y w hw hf hpar hv
+      simp only [gainClimb, bind_ok] at h3
+      obtain ⟨w3, hg3, h3⟩ := h3
+      have := hs2.2 x
+      rw [hw, (get_ok.mp hg3).1] at this
+      simp [pv] at this
+      simp only [this.1.trans hpar, this.2.1.trans hv, if_true] at h3
+      exact h3
+    cases hre with
+    | here hw hf hpar hv =>
+      exact in3 (gained_level_in fx (hrec _ _ hw hf hpar hv) hpw2 hn2')
+    | up hw hf hpar hv hrest =>
+      exact in3 (ih _ _ _ _ _ _ pw2 (hrec _ _ hw hf hpar hv) (reaches_pv hs2.2 hrest) hpw2 hn2')
+
 end WinFocus
 end Tickit
